@@ -69,12 +69,20 @@ def _copy_h5_element(
                     compression=src_dataset.compression,
                     compression_opts=src_dataset.compression_opts)
             else:
+                # h5py lets a dataset be created with automatic chunks
+                # that are longer than a (non-resizable) axis, e.g. an
+                # empty array, but refuses to be told that chunk shape
+                # explicitly; let it choose again in that case
+                limit = src_dataset.maxshape
+                too_long = any(
+                    lim is not None and ch > lim
+                    for ch, lim in zip(chunks, limit))
                 dst_dataset = dst_handle.create_dataset(
                     current_location,
                     dtype=src_dataset.dtype,
                     shape=src_dataset.shape,
                     maxshape=src_dataset.maxshape,
-                    chunks=src_dataset.chunks,
+                    chunks=(True if too_long else src_dataset.chunks),
                     compression=src_dataset.compression,
                     compression_opts=src_dataset.compression_opts)
 
